@@ -1003,9 +1003,16 @@ class LangServer:
         type_mem: bool,
         file_obj: FortranFile = None,
     ):
+        def get_fqsn(obj) -> str:
+            # The interface body of a separate module procedure and its
+            # implementation in a submodule are one entity
+            if isinstance(obj, Scope) and getattr(obj, "link_obj", None) is not None:
+                return obj.link_obj.FQSN
+            return obj.FQSN
+
         # Search through all files
         def_name: str = def_obj.name.lower()
-        def_fqsn: str = def_obj.FQSN
+        def_fqsn: str = get_fqsn(def_obj)
         # Look around the name instead of consuming its neighbours: in `i=i+1` the
         # single character between two occurrences belongs to neither match
         NAME_REGEX = re.compile(
@@ -1043,7 +1050,10 @@ class LangServer:
                         # it will not have a FQSN
                         # BUG: intrinsic objects should be excluded, but get_definition
                         # does not recognise the arguments
-                        if def_fqsn == var_def.FQSN or var_def.FQSN in override_cache:
+                        if (
+                            def_fqsn == get_fqsn(var_def)
+                            or var_def.FQSN in override_cache
+                        ):
                             ref_match = True
                         # NOTE: throws AttributeError if object is None
                         elif var_def.parent.get_type() == CLASS_TYPE_ID:
@@ -1113,7 +1123,11 @@ class LangServer:
         if def_obj.FQSN.count(":") > 2:
             if def_obj.parent.get_type() == CLASS_TYPE_ID:
                 type_mem = True
-            else:
+            # An interface body declares its procedure in the scope of the block
+            elif (
+                def_obj.parent.get_type() != INTERFACE_TYPE_ID
+                or def_obj.parent.FQSN.count(":") > 2
+            ):
                 restrict_file = def_obj.file_ast.file
                 if restrict_file is None:
                     return None
@@ -1268,7 +1282,11 @@ class LangServer:
         if def_obj.FQSN.count(":") > 2:
             if def_obj.parent.get_type() == CLASS_TYPE_ID:
                 type_mem = True
-            else:
+            # An interface body declares its procedure in the scope of the block
+            elif (
+                def_obj.parent.get_type() != INTERFACE_TYPE_ID
+                or def_obj.parent.FQSN.count(":") > 2
+            ):
                 restrict_file = def_obj.file_ast.file
                 if restrict_file is None:
                     return None
